@@ -199,7 +199,19 @@ pub enum UserInfoOrHost {
 pub fn user_info_or_host(bytes: &[u8], mut i: usize) -> (UserInfoOrHost, usize) {
 	while i < bytes.len() {
 		match bytes[i] {
-			b'[' => return (UserInfoOrHost::Host, bytes.len()),
+			b'[' => {
+				// IP-literal: the host ends after the closing bracket (a port
+				// may follow).
+				while i < bytes.len() && bytes[i] != b']' {
+					i += 1
+				}
+
+				if i < bytes.len() {
+					i += 1
+				}
+
+				return (UserInfoOrHost::Host, i);
+			}
 			b'@' => return (UserInfoOrHost::UserInfo, i),
 			b':' => {
 				// end of the host, or still in the user-info.
@@ -239,7 +251,7 @@ pub fn find_user_info(bytes: &[u8], mut i: usize) -> Option<Range<usize>> {
 }
 
 pub fn host(bytes: &[u8], mut i: usize) -> usize {
-	if !bytes.is_empty() && bytes[0] == b'[' {
+	if i < bytes.len() && bytes[i] == b'[' {
 		// IP-literal.
 		i += 1;
 		while i < bytes.len() && bytes[i] != b']' {
